@@ -143,6 +143,7 @@ def run(rep, tier):
     # R5: references that grow / are longer than needed
     c05.rule_relative(_SubReport(rep, 'R5', 'R7'), idx, 'quick')
     c05.rule_oversized(_SubReport(rep, 'R5', 'R7b'), idx, 'R7b')
+    c05.rule_data_after_growth(_KeyPrefix(_SubReport(rep, 'R5', 'R3d'), 'data-after-growth:'), idx, 'R3d')
     # R3: value classes for one mnemonic
     emit = idx.func('hexasm::CodeGen::emitProgramBin')
     classes = []
@@ -167,6 +168,20 @@ def run(rep, tier):
         rep.add('R4', '%s:%s' % (tu, what), same, pos(g.node) + ' ' + g.qname,
                 'emitProgramText and emitBin are called on the same CodeGen object' if same else
                 'the listing is not printed from the object that is emitted', nontrivial=False)
+
+
+class _KeyPrefix:
+    def __init__(self, rep, prefix):
+        self.rep, self.prefix = rep, prefix
+
+    def add(self, rule, key, *a, **k):
+        return self.rep.add(rule, self.prefix + key, *a, **k)
+
+    def undecided(self, rule, key, *a, **k):
+        return self.rep.undecided(rule, self.prefix + key, *a, **k)
+
+    def __getattr__(self, n):
+        return getattr(self.rep, n)
 
 
 class _SubReport:
